@@ -145,7 +145,7 @@ Fixpoint walk (pre : list string) (n : node) : list (list string) :=
   end.
 
 (* what iter_submodules does with one relative file path *)
-Inductive yield := YSkip | YInit (parts : list string) | YMod (parts : list string) | YErr.
+Inductive yield := YSkip | YInit (parts : list string) | YMod (parts : list string).
 
 Definition name_to_yield (rel : list string) : yield :=
   let fn := last rel "" in
@@ -154,7 +154,7 @@ Definition name_to_yield (rel : list string) : yield :=
   let stem := if py then pl_stem fn else before_first_dot (pl_stem fn) in
   if stem =? "__init__" then (if (List.length rel =? 1)%nat then YSkip else YInit par)
   else if py then YMod (par ++ [stem])
-  else if stem =? "" then YErr                       (* Path.with_name("") raises ValueError *)
+  else if stem =? "" then YSkip                      (* a dot-file such as .x.pyi names no module: skipped *)
   else YMod (par ++ [stem]).
 
 Record entry := mkE { e_parts : list string; e_base : path; e_rel : list string }.
@@ -169,7 +169,6 @@ Fixpoint iter_files (base : path) (skip : list (list string)) (files : list (lis
       if mem_lstr (removelast rel) skip then iter_files base skip r seen else
       match name_to_yield rel with
       | YSkip => iter_files base skip r seen
-      | YErr => Err "ValueError"
       | YInit parts =>
           match iter_files base skip r (seen ++ [removelast rel]) with
           | Ok (es, s) => Ok (mkE parts base rel :: es, s)
@@ -256,13 +255,21 @@ Fixpoint g_find (U : universe) (name : string) (paths : list nat) (nsacc : list 
       end
   end.
 
+(* sorted(os.listdir()) *)
+Fixpoint insert_sorted (x : string * node) (l : listing) : listing :=
+  match l with
+  | [] => [x]
+  | y :: r => if String.leb (fst x) (fst y) then x :: l else y :: insert_sorted x r
+  end.
+Definition sort_listing (l : listing) : listing := fold_right insert_sorted [] l.
+
 (* _extend_from_pth_files: the loop runs over the list it appends to.  [done] ++ [todo] is search_paths. *)
 Definition pth_targets_griffe (L : listing) : list nat :=
   flat_map (fun e : string * node => match snd e with
                      | File _ lines => if pl_suffix (fst e) =? ".pth"
                                        then flat_map (fun l : bool * nat => if fst l then [] else [snd l]) lines   (* relative lines: resolved against the cwd, not found *)
                                        else []
-                     | Dir _ => [] end) L.
+                     | Dir _ => [] end) (sort_listing L).       (* sorted(contents), as site does *)
 
 Fixpoint add_new (xs : list nat) (known : list nat) : list nat :=
   match xs with
@@ -308,6 +315,8 @@ Fixpoint set_m (k : list string) (v : minfo) (M : mstate) : mstate :=
 
 Definition path_suffix (p : path) : string := pl_suffix (last (snd p) "").
 
+Definition is_init_name (fn : string) : bool := before_first_dot fn =? "__init__".
+
 (* _get_or_create_parent_module; returns the state (side effects persist) and the parent key, None = UnimportableModuleError *)
 Fixpoint goc (M : mstate) (cur : list string) (todo : list string) (k : nat) (mfp : nat -> path)
   : mstate * option (list string) :=
@@ -318,7 +327,9 @@ Fixpoint goc (M : mstate) (cur : list string) (todo : list string) (k : nat) (mf
       match lookup_m key M with
       | Some (MNs ps) =>
           goc (if mem_path (mfp k) ps then M else set_m key (MNs (ps ++ [mfp k])) M) key r (S k) mfp
-      | Some (MFile _) => goc M key r (S k) mfp
+      | Some (MFile f) =>
+          (* a plain module (bar.py next to bar/) is not a package: UnimportableModuleError *)
+          if is_init_name (last (snd f) "") then goc M key r (S k) mfp else (M, None)
       | None =>
           match lookup_m cur M with
           | Some (MNs _) => goc (set_m key (MNs [mfp k]) M) key r (S k) mfp
@@ -342,9 +353,7 @@ Definition static_loadable (p : path) : bool := (path_suffix p =? ".py") || (pat
 
 Definition load_entry (insp : bool) (M : mstate) (e : entry) : mstate :=
   if existsb has_dot (e_parts e) then M else
-  let fn := last (e_rel e) "" in
-  let shift := if (before_first_dot fn =? "__init__") && negb (pl_stem fn =? "__init__") then 1 else 0 in
-  let mfp := fun k => (fst (e_base e), snd (e_base e) ++ firstn (k + 1 + shift) (e_rel e)) in
+  let mfp := fun k => (fst (e_base e), snd (e_base e) ++ firstn (k + 1) (e_rel e)) in
   match goc M [] (removelast (e_parts e)) 0 mfp with
   | (M1, None) => M1
   | (M1, Some pk) =>
@@ -353,7 +362,6 @@ Definition load_entry (insp : bool) (M : mstate) (e : entry) : mstate :=
       else M1
   end.
 
-Definition is_init_name (fn : string) : bool := before_first_dot fn =? "__init__".
 
 Definition classify (key : list string) (v : minfo) : string :=
   match key, v with
@@ -474,14 +482,6 @@ Fixpoint getmodulename_with (fn : string) (sufs : list string) : option string :
   end.
 Definition getmodulename (fn : string) : option string := getmodulename_with fn modname_suffixes.
 
-(* sorted(os.listdir()) *)
-Fixpoint insert_sorted (x : string * node) (l : listing) : listing :=
-  match l with
-  | [] => [x]
-  | y :: r => if String.leb (fst x) (fst y) then x :: l else y :: insert_sorted x r
-  end.
-Definition sort_listing (l : listing) : listing := fold_right insert_sorted [] l.
-
 (* pkgutil._iter_file_finder_modules over one (sorted) directory listing *)
 Definition has_init_module (inner : listing) : bool :=
   existsb (fun e => match getmodulename (fst e) with Some s => s =? "__init__" | None => false end) inner.
@@ -569,21 +569,6 @@ Definition is_src_ext (x : string) : bool := (x =? ".py") || (x =? ".pyi").
 Definition module_stem (fn : string) : string :=
   if pl_suffix fn =? ".py" then pl_stem fn else before_first_dot (pl_stem fn).
 
-(* F1: a source file x.py / x.pyi next to a directory x that has no regular __init__.py *)
-Definition gapL_F1 (L : listing) : bool :=
-  existsb (fun e : string * node =>
-             is_file (snd e) && is_src_ext (os_ext (fst e)) &&
-             match lookup_entry (module_stem (fst e)) L with
-             | Some (Dir inner) => negb (has_file "__init__.py" inner)
-             | _ => false
-             end) L.
-
-(* F4: an accepted non-.py file whose module name is empty (a dot-file such as .x.pyi) *)
-Definition gapL_F4 (L : listing) : bool :=
-  existsb (fun e : string * node =>
-             is_file (snd e) && accepted (fst e) && negb (pl_suffix (fst e) =? ".py") &&
-             (before_first_dot (pl_stem (fst e)) =? "")) L.
-
 (* F5: two stub files of one directory that map to the same module name *)
 Fixpoint has_dup (l : list string) : bool :=
   match l with [] => false | x :: r => mem_str x r || has_dup r end.
@@ -598,15 +583,6 @@ Definition pth_files (L : listing) : list (string * list (bool * nat)) :=
   flat_map (fun e : string * node => match snd e with
                      | File _ lines => if pl_suffix (fst e) =? ".pth" then [(fst e, lines)] else []
                      | Dir _ => [] end) L.
-Fixpoint names_sorted (l : list string) : bool :=
-  match l with
-  | [] => true
-  | x :: r => match r with [] => true | y :: _ => String.leb x y && names_sorted r end
-  end.
-Definition gapU_F2_unsorted (U : universe) : bool :=
-  existsb (fun il : nat * listing => negb (names_sorted (map fst (pth_files (snd il))))) U.
-Definition gapU_F2_multi (U : universe) : bool :=
-  existsb (fun il : nat * listing => (2 <=? List.length (pth_files (snd il)))%nat) U.
 Definition gapU_F6 (U : universe) : bool :=
   existsb (fun il : nat * listing => existsb (fun f : string * list (bool * nat) => existsb (fun l : bool * nat => fst l) (snd f)) (pth_files (snd il))) U.
 Definition all_pth_targets (U : universe) : list nat :=
@@ -649,21 +625,12 @@ Fixpoint f3_portions (U : universe) (ds : list path) (seen : list (list string))
       end
   end.
 
-(* F1 seen from the entries: something is yielded below the name of a plain (non-__init__) source module *)
 Fixpoint is_proper_prefix (a b : list string) : bool :=
   match a, b with
   | [], _ :: _ => true
   | x :: a', y :: b' => (x =? y) && is_proper_prefix a' b'
   | _, _ => false
   end.
-Definition under_plain (es : list entry) : bool :=
-  existsb (fun m => entry_ok m && negb (is_init_name (last (e_rel m) "")) &&
-                    existsb (fun e => is_proper_prefix (e_parts m) (e_parts e)) es) es.
-
-(* F9: a compiled __init__ whose pathlib stem is not "__init__" (__init__.cpython-312-...so) *)
-Definition gapL_F9 (L : listing) : bool :=
-  existsb (fun e : string * node =>
-             is_file (snd e) && accepted (fst e) && is_init_name (fst e) && negb (pl_stem (fst e) =? "__init__")) L.
 
 (* F10: an earlier portion yields something below a directory that a LATER portion owns as a regular package *)
 Fixpoint f10 (es : list entry) : bool :=
@@ -683,8 +650,8 @@ Definition decl_mixed (U : universe) (name : string) (paths : list nat) : bool :
 
 Definition gaps (U : universe) (sps : list nat) (name : string) : list string :=
   let tag (b : bool) (t : string) := if b then [t] else [] in
-  tag (any_listing gapL_F9 U) "F9" ++ tag (gapU_F2_unsorted U) "F2u" ++ tag (gapU_F2_multi U) "F2m" ++
-  tag (any_listing gapL_F4 U) "F4" ++ tag (any_listing gapL_F5 U) "F5" ++ tag (gapU_F6 U) "F6" ++ tag (gapU_F7 U) "F7" ++
+  
+  tag (any_listing gapL_F5 U) "F5" ++ tag (gapU_F6 U) "F6" ++ tag (gapU_F7 U) "F7" ++
   match g_paths U sps with
   | None => []
   | Some ps =>
@@ -692,9 +659,8 @@ Definition gaps (U : universe) (sps : list nat) (name : string) : list string :=
       match g_find U name ps [] with
       | FNs ds =>
           tag (f3_portions U ds []) "F3" ++
-          match iter_portions U ds [] with Ok es => tag (dup_across es) "F8" ++ tag (under_plain es) "F1" ++ tag (f10 es) "F10" | Err _ => [] end
-      | FPkg p _ => match iter_regular U p with Ok es => tag (under_plain es) "F1" | Err _ => [] end
-      | FNone => []
+          match iter_portions U ds [] with Ok es => tag (dup_across es) "F8" ++ tag (f10 es) "F10" | Err _ => [] end
+      | _ => []
       end
   end.
 
@@ -730,13 +696,6 @@ Fixpoint tree_okb (n : node) : bool :=
   end.
 
 
-Definition yields_modb (m : entry) : bool :=
-  match name_to_yield (e_rel m) with YMod p => lstr_eqb p (e_parts m) | _ => false end.
-
-Definition upb (es : list entry) : bool :=
-  forallb (fun m => forallb (fun e => negb (entry_ok m && yields_modb m && is_proper_prefix (e_parts m) (e_parts e))) es) es.
-
-
 Definition key_okb (k : list string) : bool :=
   negb (match k with [] => true | _ => false end) &&
   forallb (fun c => negb (c =? "") && negb (c =? "__init__") && negb (c =? "__pycache__")) k.
@@ -744,7 +703,7 @@ Definition key_okb (k : list string) : bool :=
 (* is this regular package inside the domain of the importability theorem? *)
 Definition in_domain (U : universe) (i : nat) (dirc : list string) : bool :=
   match node_at U (i, dirc), iter_regular U (i, dirc ++ ["__init__.py"]) with
-  | Some (Dir L0), Ok es => tree_okb (Dir L0) && no_clashb es && upb es
+  | Some (Dir L0), Ok es => tree_okb (Dir L0) && no_clashb es
   | _, _ => false
   end.
 
